@@ -23,6 +23,35 @@ class SymFile(io.BufferedIOBase):
         self._p += len(r)
         return r
 
+    def readline(self, size=-1):
+        d = self._d
+        i = self._p
+        n = len(d)
+        while i < n:
+            i += 1
+            if d[i - 1] == 10:
+                break
+        r = d[self._p:i]
+        self._p = i
+        return r
+
+    def __iter__(self):
+        return self
+
+    def __next__(self):
+        r = self.readline()
+        if len(r) == 0:
+            raise StopIteration
+        return r
+
+    def readlines(self):
+        out = []
+        while True:
+            r = self.readline()
+            if len(r) == 0:
+                return out
+            out.append(r)
+
     def seek(self, off, whence=0):
         if whence == 0:
             self._p = off
